@@ -4,7 +4,7 @@ import json, os, sys
 
 VERIF = os.path.dirname(os.path.dirname(os.path.abspath(__file__)))
 sys.path.insert(0, VERIF)
-from tools.claims import CLAIMS, NOT_BUILT  # noqa: E402
+from tools.claims import CLAIMS, EXTRA, NOT_BUILT  # noqa: E402
 
 props = [json.loads(l) for l in open(os.path.join(VERIF, "properties.jsonl"))]
 ids = [p["id"] for p in props]
@@ -22,7 +22,9 @@ for pid in ids:
         "evidence_file": f"/verif/evidence/{pid}.json",
         "replay_cmd_template": "/venv/bin/python /verif/check.py --replay {path}",
         "engine": "lv",
-        "level_claimed": {"category": "exploration", "text": c["level"], "design_ref": c["design_ref"]},
+        "level_claimed": {"category": "exploration",
+                          "text": c["level"] + (" Added while strengthening: " + EXTRA[pid] if pid in EXTRA else ""),
+                          "design_ref": c["design_ref"]},
         "level_note": c["note"],
         "technique": c["technique"],
     })
@@ -42,7 +44,7 @@ manifest = {
         "serves_properties": [c["property_id"] for c in checks],
         "kind_free_text": "Hypothesis 6.168 property-based testing (generated programs/data/histories, bounded-"
                           "exhaustive enumeration of small finite spaces) with collect-then-minimise runner; atheris "
-                          "coverage-guided fuzz targets for C02/C17/C20 in thorough tiers",
+                          "coverage-guided fuzz targets for C02/C17 in thorough tiers",
     }],
     "checks": checks,
     "notes": "All checks: /verif/check.py <id> <quick|thorough>; exit 0 held / 1 VIOLATION / 2 harness error. "
